@@ -379,7 +379,8 @@ class Ceremony:
             pm = psbtmap.parse(raw)
         except Exception:
             pm = None
-        tr.state("review", out.split(":")[0], self.plan.get("tamper", {}).get("kind") if self.plan.get("tamper") else None)
+        tr.state("review", out.split(":")[0], self.plan.get("tamper", {}).get("kind") if self.plan.get("tamper") else None, s.kind, s.m, s.n, len(s.inputs), bool(self.plan.get("review_update")),
+                 bool(self.plan.get("creator", {}).get("helper")), s.change is not None)
         if d is None:
             tr.oracle("R3")
             if self.plan.get("_honest_message"):
